@@ -1,5 +1,6 @@
 import LanceModel.C08.SafeLemmas
 import LanceModel.C08.Race
+import LanceModel.C08.RealNames
 /-
 C08 — cleanup never removes anything a retained version needs.
 
